@@ -1,5 +1,5 @@
 (* C16: reb_simulation_rescale_var changes only the recorded magnitude: every configuration is either untouched or
-   all its 6N coordinates are divided by ONE positive factor whose logarithm is added to lrescale, so the
+   all its 7N numbers (mass variation and coordinates) are divided by ONE positive factor whose logarithm is added to lrescale, so the
    represented tangent vector  exp(lrescale) * particles  is unchanged; and WHFast with safe_mode = 0 is told to
    recompute its cached Jacobi coordinates whenever that happened. *)
 From Coq Require Import List ZArith Bool Reals Lra Classical.
@@ -8,7 +8,7 @@ Import ListNotations.
 Open Scope R_scope.
 
 Definition mul6 (s : R) (p : @P6 R) : @P6 R :=
-  let '(x, y, z, vx, vy, vz) := p in (s * x, s * y, s * z, s * vx, s * vy, s * vz).
+  let '(m, x, y, z, vx, vy, vz) := p in (s * m, s * x, s * y, s * z, s * vx, s * vy, s * vz).
 (* the tangent vector a configuration stands for *)
 Definition represented (c : @VCfg R) : list (@P6 R) := map (mul6 (exp (vc_lres c))) (vc_ps c).
 (* the IAS15 per-particle state of the set (compensated-summation residuals, predictor/corrector coefficients), in the
@@ -46,7 +46,7 @@ Proof.
   set (s := scale_of RNum (vc_ps c)) in *. assert (Hs0 : 0 < s) by lra.
   split; [|repeat split; auto].
   - unfold ok_pair. cbn [vc_lres vc_ps vc_alloc vc_order vc_ias]. split; [|split; [|split; [reflexivity|split; [reflexivity|]]]].
-    + unfold represented. cbn [vc_lres vc_ps]. rewrite map_map. apply map_ext. intros [[[[[x y] z] vx] vy] vz].
+    + unfold represented. cbn [vc_lres vc_ps]. rewrite map_map. apply map_ext. intros [[[[[[m x] y] z] vx] vy] vz].
       unfold mul6, div6. cbn. rewrite exp_plus, exp_ln by exact Hs0.
       repeat match goal with |- (_, _) = (_, _) => f_equal end; field; lra.
     + intros [Hi Ha]. unfold represented_ias. cbn [vc_lres vc_ias]. rewrite Hi, Ha. cbn [Nat.eqb andb].
